@@ -867,6 +867,13 @@ class BaseInterpreter(Generic[TContext, TEvent]):
                 f"{type(snapshot).__name__}."
             )
 
+        # 🧾 Validate the shape of every field before touching it. Snapshots
+        #    come back from disk, Redis or a queue; a field of the wrong type
+        #    used to surface as a raw KeyError/TypeError/AttributeError from
+        #    the restore code below instead of a library error the caller
+        #    can catch.
+        cls._validate_snapshot_shape(snapshot)
+
         # 🧪 Create a new instance of the correct interpreter class (sync/async)
         interpreter = cls(machine)
         interpreter.context = snapshot["context"]
@@ -956,6 +963,66 @@ class BaseInterpreter(Generic[TContext, TEvent]):
             interpreter.status,
         )
         return interpreter
+
+    @staticmethod
+    def _validate_snapshot_shape(snapshot: Dict[str, Any]) -> None:
+        """Checks that a decoded snapshot has the fields and types restore needs.
+
+        Args:
+            snapshot (Dict[str, Any]): The decoded snapshot object.
+
+        Raises:
+            InvalidConfigError: If a required field is missing or any field
+                has the wrong JSON type.
+        """
+
+        def _fail(field: str, expected: str) -> None:
+            raise InvalidConfigError(
+                f"Snapshot field '{field}' is missing or malformed; "
+                f"expected {expected}."
+            )
+
+        def _is_str_list(value: Any) -> bool:
+            return isinstance(value, list) and all(
+                isinstance(item, str) for item in value
+            )
+
+        if not isinstance(snapshot.get("status"), str):
+            _fail("status", "a string")
+        if "context" not in snapshot or not isinstance(
+            snapshot["context"], dict
+        ):
+            _fail("context", "an object")
+        configuration = snapshot.get("configuration")
+        if configuration is not None and not _is_str_list(configuration):
+            _fail("configuration", "a list of state ids")
+        if not configuration and not _is_str_list(snapshot.get("state_ids")):
+            _fail("state_ids", "a list of state ids")
+        error = snapshot.get("error")
+        if error is not None and not isinstance(error, str):
+            _fail("error", "a string or null")
+        history = snapshot.get("history")
+        if history is not None and not (
+            isinstance(history, dict)
+            and all(_is_str_list(ids) for ids in history.values())
+        ):
+            _fail("history", "an object mapping state ids to lists of ids")
+        actors = snapshot.get("actors")
+        if actors is not None and not (
+            isinstance(actors, dict)
+            and all(
+                isinstance(record, dict)
+                and isinstance(record.get("snapshot"), dict)
+                for record in actors.values()
+            )
+        ):
+            _fail("actors", "an object of {src, snapshot} records")
+        system = snapshot.get("system")
+        if system is not None and not (
+            isinstance(system, dict)
+            and all(isinstance(actor_id, str) for actor_id in system.values())
+        ):
+            _fail("system", "an object mapping systemIds to actor ids")
 
     # -------------------------------------------------------------------------
     # 📝 Abstract Methods (Template Method Hooks for Subclasses)
